@@ -17,6 +17,7 @@ ExploreSmall ==
   \cup {Text(Ints(n)) : n \in 0..2}
   \cup {Buffer("buffer", Ints(n)) : n \in 0..2}
   \cup {Buffer("args", Ints(n)) : n \in 0..2}
+  \cup {BufferCut("buffer", Ints(1), 125, 3, 2), BufferCut("args", Ints(1), 125, 3, 1), BufferCut("buffer", <<>>, 47, 2, 1)}
 ExploreMore ==
   {IterArg(Linear("desc", 2, I(0), I(6), 0)), Linear("api", 3, I(0), I(6), 0), Linear("profile", 2, I(0), I(6), 0), Factor(3, I(2), I(3), I(1), 5),
    Boundary("api", 4, I(1), I(2), I(3)), Boundary("profile", 3, I(1), I(2), I(3)),
@@ -39,6 +40,12 @@ WalkRange ==
    Range(I(0), R(3, 10), R(1, 10), 0), Range(I(0), R(7, 10), R(1, 10), 0), Range(I(0), R(6, 5), R(2, 5), 1),
    Range(I(1), I(2), R(1, 5), 0), Range(I(0), R(9, 10), R(3, 10), 0), Range(I(0), R(1, 2), R(1, 5), 0),
    Range(R(37, 10), R(9, 2), R(4, 5), 0), Range(I(33), R(167, 5), R(1, 10), 1)}
+\* many decimal steps: the count floor((b - a) / step) + 1 is an exact rational question, the quotient of the doubles
+\* lands just below or above the integer
+ManySteps(N, S) == {Range(I(0), RMul(RInt(n), st), st, 0) : n \in N, st \in S}
+WalkRangeMany  == ManySteps({19, 23, 29, 37, 46, 48, 57}, {R(1, 10), R(1, 5), R(2, 5), R(3, 10)})
+WalkRangeMore  == ManySteps({97, 131, 233, 300}, {R(1, 10), R(1, 5), R(2, 5), R(3, 10), R(7, 10)})
+                  \cup {Range(R(1, 10), RAdd(R(1, 10), RMul(RInt(n), R(3, 10))), R(3, 10), 1) : n \in {21, 58, 119}}
 WalkFactor ==
   {Factor(n, I(10), I(10), I(0), 1) : n \in {0, 1, 3}}
   \cup {Factor(n, b, b, I(0), 2) : n \in {0, 2, 4}, b \in {I(2), R(1, 2), I(3)}}
@@ -59,6 +66,8 @@ ValLists == {<<I(7)>>, Ints(3), <<R(1, 2), R(-5, 4), I(3)>>, <<R(1, 10), R(1, 5)
 WalkValues == {Values(v, l) : v \in {"values", "desc"}, l \in ValLists}
 WalkText   == {Text(l) : l \in ValLists \cup {<<>>}}
 WalkBuffer == {Buffer(v, l) : v \in {"buffer", "args"}, l \in ValLists \cup {<<>>}}
+              \cup {BufferCut(v, l, t[1], t[2], t[3]) : v \in {"buffer", "args"}, l \in {<<>>, Ints(3), <<R(1, 2), R(-5, 4), I(3)>>},
+                                                        t \in {<<125, 3, 2>>, <<125, 3, 1>>, <<98765, 5, 4>>, <<40, 2, 1>>}}
 
 WalkFill ==
   {FillSrc("linear", n, ld, p[2], p[3], I(0)) : n \in {2, 3, 5}, ld \in {1, 3}, p \in LinParams}
@@ -66,11 +75,11 @@ WalkFill ==
 
 WalkIterArg ==
   {IterArg(x) : x \in {y \in WalkLinear : y.via = "desc" /\ y.style = 0}}
-  \cup {IterArg(x) : x \in {y \in WalkRange : y.style = 0}}
+  \cup {IterArg(x) : x \in {y \in WalkRange \cup WalkRangeMany : y.style = 0}}
   \cup {IterArg(x) : x \in {y \in WalkFactor \ {FactorMax} : y.form \in {1, 5}}}
 
-WalkAll == WalkIterArg \cup WalkFill \cup WalkLinear \cup WalkRange \cup WalkFactor \cup WalkBoundary \cup WalkPoly \cup WalkValues \cup WalkText \cup WalkBuffer
+WalkAll == WalkIterArg \cup WalkFill \cup WalkLinear \cup WalkRange \cup WalkRangeMany \cup WalkFactor \cup WalkBoundary \cup WalkPoly \cup WalkValues \cup WalkText \cup WalkBuffer
 
 SrcQuick    == WithExplore(ExploreSmall, TRUE) \cup WithExplore(WalkAll, FALSE)
-SrcThorough == WithExplore(ExploreSmall \cup ExploreMore, TRUE) \cup WithExplore(WalkAll, FALSE)
+SrcThorough == WithExplore(ExploreSmall \cup ExploreMore, TRUE) \cup WithExplore(WalkAll \cup WalkRangeMore, FALSE)
 =============================================================================
